@@ -29,7 +29,8 @@ const Instance = sim.Instance
 type GateEntry struct {
 	Kind     string
 	H        uint64
-	V        uint64 // node's view when the call was entered
+	V        uint64 // view the call's context belongs to: the node's view at entry; for validate the view of the proposal being validated
+	PosExact bool   // false: the view could not be determined (a proposal the harness did not send); position-dependent rules skip the entry
 	Policy   string // pass | hold | ctx
 	CtxErrAt bool   // context already cancelled at entry
 	Released string // "" (still blocked) | "pass" | "release" | "ctx"
@@ -54,14 +55,14 @@ func (g *Gates) Plan(kind, policy string) {
 	g.mu.Unlock()
 }
 
-func (g *Gates) enter(kind string, ctx context.Context, h, v uint64) {
+func (g *Gates) enter(kind string, ctx context.Context, h, v uint64, exact bool) {
 	g.mu.Lock()
 	pol := "pass"
 	if q := g.policy[kind]; len(q) > 0 {
 		pol = q[0]
 		g.policy[kind] = q[1:]
 	}
-	e := &GateEntry{Kind: kind, H: h, V: v, Policy: pol, CtxErrAt: ctx.Err() != nil, Entered: time.Now(), ctx: ctx, ch: make(chan struct{})}
+	e := &GateEntry{Kind: kind, H: h, V: v, PosExact: exact, Policy: pol, CtxErrAt: ctx.Err() != nil, Entered: time.Now(), ctx: ctx, ch: make(chan struct{})}
 	g.Entries = append(g.Entries, e)
 	g.mu.Unlock()
 	switch pol {
@@ -180,6 +181,7 @@ type H struct {
 	LogBuf      *logScanner
 	ProofOf     map[uint64][]byte // proof the node's term of height h started from
 	stopPoll    chan struct{}
+	ppView      map[string]uint64 // proposal hash -> view of the PREPREPARE / NEW_VIEW the harness sent it in
 	HVSamples   []([2]uint64)
 	ElectionCBs int
 }
@@ -265,7 +267,20 @@ func New(cfg Config) *H {
 		if h.ML != nil {
 			v = uint64(h.ML.State().View())
 		}
-		h.Gates.enter(kind, ctx, uint64(height), v)
+		exact := true
+		if kind == "validate" {
+			// the library validates a proposal under the context of the PROPOSAL's view, which need not be the node's view
+			// (a PREPREPARE of view 0 is still validated after the node was elected into a later view): take it from the proposal
+			h.mu.Lock()
+			pv, ok := h.ppView[h.BU.GateHash()]
+			h.mu.Unlock()
+			if ok {
+				v = pv
+			} else {
+				exact = false
+			}
+		}
+		h.Gates.enter(kind, ctx, uint64(height), v, exact)
 	}
 	h.BU.Gate = gate
 	h.Mem.Gate = gate
@@ -302,7 +317,7 @@ func New(cfg Config) *H {
 	onCommit := func(ctx context.Context, block interfaces.Block, proof []byte) error {
 		b := fakes.AsBlock(block)
 		hh := uint64(block.Height())
-		h.Gates.enter("commit", ctx, hh, 0)
+		h.Gates.enter("commit", ctx, hh, 0, true)
 		h.mu.Lock()
 		h.Commits = append(h.Commits, sim.Commit{H: hh, Block: b, Proof: append([]byte{}, proof...)})
 		if !fail[hh] {
@@ -584,6 +599,16 @@ func (h *H) SeedAt(height uint64) uint64 {
 }
 
 func (h *H) Send(sp *sim.MsgSpec) bool {
+	h.mu.Lock()
+	if h.ppView == nil {
+		h.ppView = map[string]uint64{}
+	}
+	if sp.Union == sim.UPP {
+		h.ppView[string(sp.Ref.Hash)] = sp.Ref.V
+	} else if sp.Union == sim.UNV && sp.PPRef != nil {
+		h.ppView[string(sp.PPRef.Hash)] = sp.NVV // a NEW_VIEW's proposal is validated under the NEW_VIEW's view
+	}
+	h.mu.Unlock()
 	return h.SendRaw(sp.Build())
 }
 
